@@ -109,6 +109,22 @@ CHECKS = {
                       "(update handling, connection removal, idle monitor, tick runner) that keep knowledge and table current.",
         "level_note": _TRUST,
     },
+    "C20": {
+        "pkgs": ["./pkg/utils"],
+        "bounds": {
+            "quick": "0..2 node IDs; one ID: lengths {0,1,2,50,110..116,127,128,129,200,240..244,255,256,300}, two IDs: lengths from {1,112,113,128,256}; "
+                     "first/last content byte arbitrary ASCII; 0..1 DNS name (2 bytes), 0..1 IPv4/IPv6 address (arbitrary bytes)",
+            "thorough": "as quick, with one ID of every length 0..300",
+        },
+        "assumptions": ["encoding/asn1 replaced (engine only) by X.690 DER models of the shapes used; native replays run the real encoding/asn1 "
+                        "(differential test of the models)", "node IDs are ASCII"],
+        "outside": ["crypto/x509 certificate creation, parsing and chain building (SignCertReq copies the request's SAN extension verbatim)",
+                    "non-ASCII node IDs", "node IDs longer than 300 bytes"],
+        "level_text": "Bounded symbolic execution of the hand-rolled subjectAltName encoder MakeReceptorSAN, the reader ReceptorNames and "
+                      "ParseReceptorNamesFromCert over DER models of encoding/asn1: exactly one value per requested name in order with the right tag, "
+                      "node IDs read back exactly (across every DER length-form boundary), verification accepts exactly the encoded IDs.",
+        "level_note": _TRUST,
+    },
     "C10": {
         "pkgs": ["./pkg/netceptor"],
         "bounds": "step lemma for all 256 budgets, arbitrary routing table (no route / via B / via C / via unconnected X) for source and "
